@@ -84,9 +84,11 @@ def mpt(cx, body, frm, through, what, to=None, key=None):
         r = body.reachable_after([bb], avoid=Tb)
         bad = [e for e in to if e in r and e not in Tb]
         if bad:
-            from ..core import feasible_reach
-            r = feasible_reach(body, list(body.succ[bb]), avoid=Tb)
-            bad = [e for e in to if e in r and e not in Tb]
+            from ..core import feasible_reach, proven_err_exit
+            st = {}
+            r = feasible_reach(body, list(body.succ[bb]), avoid=Tb, out_states=st)
+            # an exit that every such path reaches with Err(..) in the return place is not a success exit
+            bad = [e for e in to if e in r and e not in Tb and not proven_err_exit(body, st, e)]
         k = key or ("mpt:%s" % what)
         w = a.where() if hasattr(a, "where") else body.where(bb)
         if bad:
